@@ -67,6 +67,11 @@ def run(ctx):
     ctx.rule("R16.f", "the enum of a selector schema is the live objects the Selector validates against (p.objects), not a view derived from the name mapping", floor=2)
     ctx.rule("R16.h", "the states the schema is promised for are the states validation admits: a class default declared in a subclass is validated against the inherited constraints the "
                       "schema is generated from, for every default other than None (guard of the re-validation in __param_inheritance)", floor=1)
+    ctx.rule("R16.i", "the numeric schema methods add nothing to and take nothing from declare_numeric_bounds: number_schema and integer_schema, interpreted abstractly on the 20 bound x inclusivity "
+                      "configurations, return exactly {'type': <number|integer>} plus the keywords of declare_numeric_bounds with the declared bounds themselves as values "
+                      "(re-stating an exclusive limit n as the inclusive n+1 is wrong for non-integral bounds)", floor=2)
+    ctx.rule("R16.m", "setter model: Parameter.__set__ interpreted abstractly on every combination (576) of route x constant/readonly x validation outcome x identity x reference mode x watchers x batching: "
+                      "every value that is stored was validated first -- on every route, the constructor route of constant parameters included", floor=1)
     ctx.rule("R16.g", "every value class the Number validator accepts is accepted by the emitted schema keywords, also for inclusivity flags that are not literally True/False "
                       "(0, 1): abstract interpretation of both sides on bounds x flags x ordering class (exhaustive)", floor=1)
     ctx.not_decided += ["that arbitrary serialized values validate against the schema (needs a validator run)", "Selector enum contents (run-time objects)"]
@@ -197,6 +202,49 @@ def run(ctx):
         calls = [c for c in ast.walk(f.node) if isinstance(c, ast.Call) and norm(c.func) == "cls.declare_numeric_bounds"]
         ok = calls and [norm(a) for a in calls[0].args[1:]] == ["p.bounds", "p.inclusive_bounds"]
         (ctx.ok if ok else ctx.fail)("R16.c", f, f.node, "%s passes p.bounds, p.inclusive_bounds" % m if ok else "%s does not pass (p.bounds, p.inclusive_bounds) to declare_numeric_bounds" % m)
+
+    # ---------------------------------------------------------------- R16.i
+    for mname in ("number_schema", "integer_schema"):
+        mf = cls.method(mname)
+        if mf is None:
+            raise AnalysisError("JSONSerialization.%s not found" % mname)
+        badm = None
+        for bounds in BOUNDS_CFGS:
+            for incl in INCL:
+                pobj = Obj("p", bounds=bounds, inclusive_bounds=incl, allow_None=False, step=None)
+                it = Interp(ctx.hier, dyn=SER, inline=lambda m: True, strict_self_calls=True)
+                try:
+                    outs = it.run_all(mf, {"cls": Obj("cls"), "p": pobj, "safe": False})
+                except Unsupported as e:
+                    raise AnalysisError("absint cannot interpret %s: %s -- R16.i cannot decide" % (mname, e))
+                ctx.abstract_cases += 1
+                if len(outs) != 1 or outs[0].kind != "return" or not isinstance(outs[0].value, dict):
+                    raise AnalysisError("absint imprecise on %s -- R16.i cannot decide" % mname)
+                got = dict(outs[0].value)
+                want = {}
+                if bounds is not None:
+                    if bounds[0] is not None:
+                        want["minimum" if incl[0] else "exclusiveMinimum"] = LO
+                    if bounds[1] is not None:
+                        want["maximum" if incl[1] else "exclusiveMaximum"] = HI
+                gk = {k for k in got if k != "type"}
+                if gk != set(want):
+                    badm = (bstr(bounds), incl, sorted(gk), sorted(want))
+                elif any(got[k] is not want[k] for k in want):
+                    if any(got[k] is TOP for k in want):
+                        badm = (bstr(bounds), incl, "a value computed from the bound", "the declared bound itself")
+                    else:
+                        badm = (bstr(bounds), incl, {k: repr(v) for k, v in got.items() if k != "type"}, {k: repr(v) for k, v in want.items()})
+                if badm:
+                    break
+            if badm:
+                break
+        if badm:
+            ctx.fail("R16.i", mf, mf.node, "%s(bounds=%s, inclusive_bounds=%s) emits %s, specification %s: the limit the schema states is not the one the validator enforces "
+                                           "(an exclusive limit restated as an inclusive one is wrong whenever the bound is not an integer)" % ((mname,) + badm), key=mf.qualname + "::bounds-restated",
+                     input="param.Integer(bounds=(0.5, 9.5), inclusive_bounds=(False, False)) with value 1 or 9")
+        else:
+            ctx.ok("R16.i", mf, mf.node, "%s: 20/20 configurations give exactly the keywords of declare_numeric_bounds with the declared bounds as values" % mname)
 
     # ---------------------------------------------------------------- R16.d
     rets = [st for st in ast.walk(ps.node) if isinstance(st, ast.Return)]
@@ -367,3 +415,7 @@ def run(ctx):
                  input="Number(bounds=(0, 10), inclusive_bounds=(0, 1)); x = 0 is accepted, schema says exclusiveMinimum 0")
     else:
         ctx.ok("R16.g", vf, vf.node, "%d cases: whatever the validator accepts, the schema accepts (flags True/False/1/0)" % n2)
+
+    # model-level rule, run last
+    from checks import setter_model
+    setter_model.report(ctx, "C16", "R16.m")
